@@ -561,13 +561,17 @@ tzm_check(const char *fn)
 
 		while (p < ep) {
 			const char *mn = (const void*)p;
-			size_t mz = strlen(mn);
 			znoff_t off;
 			const char *zn;
 			size_t zz;
 
-			p += (mz - 1U) / sizeof(*p) + 1U;
-			off = be32toh(*p++) >> 8U;
+			/* fast forward to the offset word */
+			for (; *(const char*)p; p++);
+			if ((off = be32toh(*p++) >> 8U) >= tzm_zname_size(m)) {
+				error("invalid zone name for `%s'", mn);
+				rc = -1;
+				continue;
+			}
 
 			zn = m->data + off;
 			zz = strlen(zn);
@@ -708,11 +712,14 @@ cmd_show(const struct yuck_cmd_show_s argi[static 1U])
 
 		while (p < ep) {
 			const char *mn = (const void*)p;
-			size_t mz = strlen(mn);
 			znoff_t off;
 
-			p += (mz - 1U) / sizeof(*p) + 1U;
-			off = be32toh(*p++) >> 8U;
+			/* fast forward to the offset word */
+			for (; *(const char*)p; p++);
+			if ((off = be32toh(*p++) >> 8U) >= tzm_zname_size(m)) {
+				/* not a zone name */
+				continue;
+			}
 
 			/* actually print the strings */
 			fputs(mn, stdout);
